@@ -123,13 +123,13 @@ def getBlockIndices (blocks : List BIdx) (start end_ : Int) (prevSl : Option (Li
   | .ok cp =>
     let from_ : Int := if prevEnd > start then prevEnd else start
     -- slots [0, cp.length) hold copies, slots [from_-start, len) are loaded, anything between is nil
-    let slots := (List.range len).map (fun k =>
-      let j : Int := start + k
+    let slots := (List.range len).map (fun (k : Nat) =>
+      let j : Int := start + (k : Int)
       if j ≥ from_ then
         (if j < 0 then none else blocks[j.toNat]?)
       else (cp[k]?).getD none)
     -- loading block index j ≥ len(tbl.BlockIndices) panics
-    if (List.range len).any (fun k => let j : Int := start + k; decide (j ≥ from_) && (decide (j < 0) || decide (j.toNat ≥ blocks.length)))
+    if (List.range len).any (fun (k : Nat) => let j : Int := start + (k : Int); decide (j ≥ from_) && (decide (j < 0) || decide (j.toNat ≥ blocks.length)))
     then .panic "blockindices-index"
     else .ok (some slots)
 
